@@ -35,6 +35,9 @@ def configs(tier, seed):
   for mq in (2, 4, 10):
     for low in ((0.25, 0.5, 0.8, 1.0) if tier == 'thorough' else (0.5, 0.8)):
       cfgs.append(dict(name='relay/q%d/low%s' % (mq, low), mode='relay', maxq=mq, fc=True, low=low))
+  # USE_FLOW_CONTROL off: queues still fill up and drain, nobody may end up paused
+  for mq in ((2, 4) if tier == 'quick' else (2, 4, 10)):
+    cfgs.append(dict(name='relay/q%d/low0.5/fc0' % mq, mode='relay', maxq=mq, fc=False, low=0.5))
   return cfgs
 
 
@@ -44,12 +47,12 @@ def relay_oracle(s, v, cfg, res):
   low = s.low
   late = None
   if s.state.metricReceiversPaused:
-    # a client connecting while paused must be paused too ...
+    # a client connecting while paused must be paused too (with flow control; without it nobody is ever paused) ...
     n0 = len(s.protos)
     s.add_receivers(1)
     late = s.protos[n0]
     res.count('receivers_connected_while_paused')
-    if late.transport.producerState != 'paused':
+    if late.transport.producerState != 'paused' and s.settings.USE_FLOW_CONTROL:
       s.viol('relay/late-receiver-not-paused', 'a receiver connected while receivers were paused was not paused')
   ever = s.was_paused or s.state.metricReceiversPaused
   # epilogue B (every other sequence): destinations that are down right now stay down
